@@ -23,16 +23,20 @@ for d in sorted(os.listdir(S)):
     meta["detected_by"] = (", ".join(f"{c} ({first[c].replace('clause=', '')})" for c in caught) if caught
                            else "not detected by " + ", ".join(tried) if tried else "not tried")
     meta["tried_against"] = tried
+    if meta.get("status") == "neutralised":
+        meta["detected_by"] = "neutralised: " + meta["neutralised_by"]
     if "--write" in sys.argv:
         json.dump(meta, open(mp, "w"), indent=1)
     files = sorted(set(re.findall(r"^\+\+\+ b/(\S+)", open(os.path.join(S, d, "patch.diff")).read(), re.M)))
     rows.append((d, own, ", ".join(os.path.basename(f) for f in files), meta["needs_to_manifest"],
-                 "**" + own + "**" if own in caught else "—", ", ".join(c for c in caught if c != own) or "—"))
+                 ("(neutralised)" if meta.get("status") == "neutralised" else "**" + own + "**" if own in caught else "—"),
+                 ", ".join(c for c in caught if c != own) or "—"))
 print("| id | breaks | file | needs | own check | other checks |")
 print("|---|---|---|---|---|---|")
 for r in rows:
     print("| " + " | ".join(x.replace("|", "/") for x in r) + " |")
-n_own = sum(1 for r in rows if r[4] != "—")
-n_any = sum(1 for r in rows if r[4] != "—" or r[5] != "—")
-print(f"\n{len(rows)} seeded changes; {n_own} caught by the check of the property they break, {n_any} by at least one "
+live = [r for r in rows if r[4] != "(neutralised)"]
+n_own = sum(1 for r in live if r[4] != "—")
+n_any = sum(1 for r in live if r[4] != "—" or r[5] != "—")
+print(f"\n{len(live)} live seeded changes (+ {len(rows) - len(live)} neutralised by a repair); {n_own} caught by the check of the property they break, {n_any} by at least one "
       "registered check.")
